@@ -316,6 +316,8 @@ func c14Worker(raw json.RawMessage) *engine.Result {
 	}
 	occ := map[string]int{}
 	fired2 := false
+	firedSecond := ""
+	firedIn := map[string]bool{} // statements during which an injected fault fired
 	var idents []string
 	var identMu sync.Mutex
 	cl.H.Fault = func(rq *engine.Req) (engine.FaultMode, error) {
@@ -333,11 +335,14 @@ func c14Worker(raw json.RawMessage) *engine.Result {
 		}
 		if c.Ident2 != "" && id == c.Ident2 && !fired2 {
 			fired2 = true
+			firedSecond = rq.String() + " during " + curStmt
+			firedIn[curStmt] = true
 			return engine.FailBefore, mkErr()
 		}
 		if id == c.Ident && fired == "" {
 			fired = rq.String()
 			firedStmt = curStmt
+			firedIn[curStmt] = true
 			switch c.Mode {
 			case "applied":
 				if rq.Mutating() {
@@ -352,7 +357,11 @@ func c14Worker(raw json.RawMessage) *engine.Result {
 		return engine.FaultNone, nil
 	}
 	where := func() string {
-		return fmt.Sprintf("%s; fault: request #%d %s (%s, %s) during %q", sc.Name, c.K, fired, c.Kind, c.Mode, firedStmt)
+		s := fmt.Sprintf("%s; fault: request #%d %s (%s, %s) during %q", sc.Name, c.K, fired, c.Kind, c.Mode, firedStmt)
+		if firedSecond != "" {
+			s += "; second fault: " + firedSecond
+		}
+		return s
 	}
 	feat := ""
 	if sc.Cache > 0 {
@@ -429,7 +438,7 @@ func c14Worker(raw json.RawMessage) *engine.Result {
 			}
 			continue
 		}
-		if strings.Contains(st.Name, "vacuum") && firedStmt == st.Name {
+		if strings.Contains(st.Name, "vacuum") && firedIn[st.Name] {
 			// A request failed inside this vacuum but the vacuum reported success: the commit inside vacuum treats
 			// retiring the superseded version as best effort, so that version (with its delete markers) may still
 			// be current and merge back. Whether an older write then wins is the conflict rule's business
